@@ -152,7 +152,14 @@ func condEdgesL(fn *an.Fn, classify func(atom ast.Expr) (bool, bool)) (pass, fai
 			guaranteed(cond, val, &g)
 			hit := false
 			for _, av := range g {
-				if m, onTrue := classify(av.e); m && onTrue == av.val {
+				m, onTrue := classify(av.e)
+				if !m {
+					// a boolean local with a single definition reads as the expression defining it
+					if d := inlineLocal(fn, av.e); d != av.e {
+						m, onTrue = classify(an.Unparen(d))
+					}
+				}
+				if m && onTrue == av.val {
 					hit = true
 				}
 			}
